@@ -139,7 +139,8 @@ def job_score(job):
     native = OV.Native(extra['native'])
     for lab, model in fails[:1]:
         model = model or {}
-        mod = [(raw[i] & 0xFE) | (model.get('m%d' % i, 0) & 1) for i in range(n * n)]
+        # function/format modules keep the blank symbol's value (they are not variables), data modules come from the model
+        mod = [raw[i] if (raw[i] & 0xFE) else (model.get('m%d' % i, 0) & 1) for i in range(n * n)]
         ans = native.ask('score %d %s' % (v, OV.hexs(mod)))
         vv = [[mod[r * n + c] & 1 for c in range(n)] for r in range(n)]
         ref = iso.penalty(vv, labs)
@@ -156,7 +157,7 @@ def job_score(job):
     # translator validation: random concrete matrices through native score and the interpreter
     rnd = random.Random(seed + v)
     for t in range(2):
-        mod = [(raw[i] & 0xFE) | rnd.randrange(2) for i in range(n * n)]
+        mod = [raw[i] if (raw[i] & 0xFE) else rnd.randrange(2) for i in range(n * n)]
         ans = native.ask('score %d %s' % (v, OV.hexs(mod)))
         vv = [[mod[r * n + c] & 1 for c in range(n)] for r in range(n)]
         ref = iso.penalty(vv, labs)
